@@ -531,8 +531,11 @@ def engine_hammer(prop, tier, seed, work):
     judged by ChanHammerTrace.tla.  Aims at windows between library steps that have no yield point in between."""
     res = Result()
     n = 50000 if tier == "quick" else 400000
-    scns = [{"id": "hm%d_unb" % seed, "rounds": n, "bound": -1}, {"id": "hm%d_b2" % seed, "rounds": n // 2, "bound": 2},
-            {"id": "hm%d_b1" % seed, "rounds": n // 2, "bound": 1}]
+    chan = [{"id": "hm%d_unb" % seed, "kind": "chan", "rounds": n, "bound": -1}, {"id": "hm%d_b2" % seed, "kind": "chan", "rounds": n // 2, "bound": 2},
+            {"id": "hm%d_b1" % seed, "kind": "chan", "rounds": n // 2, "bound": 1}]
+    ping = [{"id": "hm%d_ping" % seed, "kind": "ping", "rounds": n}]
+    exe = [{"id": "hm%d_exec" % seed, "kind": "exec", "rounds": n}]
+    scns = {"C04": chan, "C03": ping, "C10": exe, "C02": chan[:1] + ping + exe}[prop]
     sp, tr = os.path.join(work, "hammer_scn.ndjson"), os.path.join(work, "hammer_trace.ndjson")
     with open(sp, "w") as f:
         for s in scns:
@@ -543,7 +546,8 @@ def engine_hammer(prop, tier, seed, work):
     res.evaluations += len(scns)
     res.nontrivial |= {s["id"] for s in scns}
     res.cmds.append("drive_hammer hammer_scn.ndjson hammer_trace.ndjson && TRACE=hammer_trace.ndjson tlc -config ChanHammerTrace.cfg ChanHammerTrace.tla")
-    res.notes.append("free-running race: %d rounds of two sends against a spinning loop (unbounded, bound 2, bound 1)" % sum(s["rounds"] for s in scns))
+    res.notes.append("free-running race (%s): %d rounds of send/ping/wake from a second thread against a spinning loop; after the call has returned one more dispatch must deliver"
+                     % (", ".join(sorted({s["kind"] for s in scns})), sum(s["rounds"] for s in scns)))
     byid = {s["id"]: s for s in scns}
     per = collections.OrderedDict()
     for x in verdict["viol"]:
@@ -894,7 +898,7 @@ for _p in CONC_KINDS:
 ENGINES["C06"].append(engine_slotlist)
 for _p in ("C01", "C05", "C12"):
     ENGINES[_p].append(engine_tping)
-for _p in ("C04", "C02"):
+for _p in ("C04", "C02", "C03", "C10"):
     ENGINES[_p].append(engine_hammer)
 
 
